@@ -54,6 +54,11 @@ func momentsFor(c *ctx, n int) [][6]int {
 			add(d[0], d[1], d[2], 1800)
 		}
 	}
+	// the first weeks of the range still belong to lunar year 0
+	for _, d := range [][3]int{{1, 1, 1}, {1, 1, 20}, {1, 2, 11}, {1, 2, 12}, {9998, 12, 31}} {
+		add(d[0], d[1], d[2], 43200)
+		add(d[0], d[1], d[2], 84600)
+	}
 	for _, d := range yearAheadDays() {
 		add(d[0], d[1], d[2], 43200)
 		add(d[0], d[1], d[2], 84600)
